@@ -9,6 +9,9 @@
  *   C06.get_path.confined    success, DEPTH > 0 => the canonical form of
  *       the result (independent spec of C18) is a confined path with
  *       exactly DEPTH components
+ *   C06.get_path.canon_is_shift  ... and it is the result minus its leading
+ *       slash ("" for the root) - the form in which the walks' harnesses
+ *       use the canonicalize_name contract
  *   C06.get_path.fail_null   failure => *out == NULL (callers free it)
  *   C06.get_path.complete    every chain whose root is nameless and whose
  *       other names are all acceptable components is not refused for a
@@ -90,6 +93,14 @@ void harness(void)
 			VERIF_ASSERT(sret == 0 && canon[0] == '\0',
 				     "C06.get_path.confined");
 		}
+		eq = (sret == 0);
+		for (i = 0; i + 1 < PATHMAX && eq; ++i) {
+			if (canon[i] != got[i + 1])
+				eq = 0;
+			if (got[i + 1] == '\0')
+				break;
+		}
+		VERIF_ASSERT(eq, "C06.get_path.canon_is_shift");
 		free(out);
 	} else {
 		VERIF_ASSERT(out == NULL, "C06.get_path.fail_null");
